@@ -33,6 +33,7 @@
 -/
 import RosuModel.Props.C20IeeeErr
 import RosuModel.Lemmas.FloatErrRange
+import RosuModel.Lemmas.FloatIntExact
 namespace Rosu.C20
 open Rosu Rosu.SliderEvents Rosu.FErr
 
@@ -291,6 +292,116 @@ theorem tick_time_err_of_run_float (p : Params Float) (fuel : Nat) (ds : List Fl
   have hlen : Scalar.lt (0 : Float) p.len = true := FMO.lt_of_lt_of_le _ _ _ hpos hle
   exact tick_time_err_float p s d hfin hlenf hlen (FMO.le_of_lt _ _ hpos) hle hdur
 
+/-! ## the span start, and the fully exact closed form -/
+
+/-- **`f64::from(s)` is exact** for `|s| < 2⁵³` (every `i32`). -/
+theorem toRat_ofInt (z : Int) (hz : z.natAbs < 2 ^ 53) : toRat (Float.ofInt z) = (z : ℚ) := by
+  by_cases h0 : z = 0
+  · subst h0
+    unfold toRat; rw [FIE.up_ofInt_zero]; simp [uval]
+  · obtain ⟨hm, hu⟩ := FIE.up_ofInt z h0 hz
+    rw [toRat_of_unpack hu]
+    have hl := FIE.log2_le_52 (by omega : z.natAbs ≠ 0) hz
+    have hp : ((2 : ℚ) ^ (52 - z.natAbs.log2)) * (2 : ℚ) ^ ((z.natAbs.log2 : Int) - 52) = 1 := by
+      rw [← zpow_natCast, ← zpow_add₀ (two_ne_zero)]
+      have : ((52 - z.natAbs.log2 : Nat) : Int) + ((z.natAbs.log2 : Int) - 52) = 0 := by omega
+      rw [this, zpow_zero]
+    push_cast
+    rw [mul_assoc, mul_assoc, hp, mul_one]
+    unfold FTR.isign
+    by_cases hneg : z < 0
+    · rw [if_pos hneg]
+      have : ((z.natAbs : Nat) : ℚ) = -(z : ℚ) := by
+        have h' : ((z.natAbs : Nat) : Int) = -z := by omega
+        rw [← Int.cast_natCast, h', Int.cast_neg]
+      rw [this]; simp [sgnQ]
+    · rw [if_neg hneg]
+      have : ((z.natAbs : Nat) : ℚ) = (z : ℚ) := by
+        have h' : ((z.natAbs : Nat) : Int) = z := by omega
+        rw [← Int.cast_natCast, h']
+      rw [this]; simp [sgnQ]
+
+/-- `a + b·c` with a rounded product and a rounded sum, in ℚ. -/
+theorem start_rat (A V m t δ u η : ℚ) (hu0 : 0 ≤ u) (hu : u ≤ 1 / 100) (hη0 : 0 ≤ η)
+    (h2 : |m - V| ≤ u * |V| + η) (h3 : t = (A + m) * (1 + δ)) (hδ : |δ| ≤ u) :
+    |t - (A + V)| ≤ u * |A| + 3 * u * |V| + 2 * η := by
+  have e : t - (A + V) = (A + m) * δ + (m - V) := by rw [h3]; ring
+  have hAm : |A + m| ≤ |A| + |V| + (u * |V| + η) := by
+    have e' : A + m = A + (V + (m - V)) := by ring
+    rw [e']
+    have a := abs_add_le A (V + (m - V))
+    have b := abs_add_le V (m - V)
+    linarith
+  rw [e]
+  have a := abs_add_le ((A + m) * δ) (m - V)
+  have b : |(A + m) * δ| ≤ (|A| + |V| + (u * |V| + η)) * u := by
+    rw [abs_mul]
+    exact mul_le_mul hAm hδ (abs_nonneg _) (by have := abs_nonneg A; have := abs_nonneg V; positivity)
+  have hA := abs_nonneg A
+  have hV := abs_nonneg V
+  have k1 : u * u * |V| ≤ u * |V| := by
+    have : u * u ≤ u := by nlinarith
+    exact mul_le_mul_of_nonneg_right this hV
+  have k3 : u * η ≤ η := by nlinarith
+  nlinarith
+
+/-- **span_start_err_float**: `span_start = start + f64::from(s) · span_duration` (one product, one sum) against
+`start + s · D`: `≤ u·|start| + 3u·|s|·D + 2⁻¹⁰⁷⁴`, for a finite span start and `|s| < 2⁵³`. -/
+theorem span_start_err_float (p : Params Float) (s : Int) (hs : s.natAbs < 2 ^ 53)
+    (hfin : (spanStart p s).isFinite = true) :
+    |toRat (spanStart p s) - (toRat p.startTime + (s : ℚ) * toRat p.spanDuration)| ≤
+      u₅₃ * |toRat p.startTime| + 3 * u₅₃ * |(s : ℚ) * toRat p.spanDuration| + (2 : ℚ) ^ (-1074 : Int) := by
+  unfold spanStart at hfin ⊢
+  rw [FIE.scalar_ofInt] at hfin ⊢
+  obtain ⟨fA, fm⟩ := finite_of_add_finite _ _ hfin
+  obtain ⟨δ, hδ, h3⟩ := add_err_float _ _ fA fm hfin
+  obtain ⟨fz, fD⟩ := finite_of_mul_finite _ _ fm
+  have h2 := (mul_rnd_float _ _ fz fD fm).abs_add
+  rw [toRat_ofInt s hs] at h2
+  rw [← two_eta]
+  exact start_rat _ _ _ _ δ _ _ u53_pos.le (by norm_num) eta_pos.le h2 h3 hδ
+
+/-- **tick_time_total_err_float** — the tick time against the *fully exact* closed form of Props/C20Exact.lean,
+`start + s·D + θ·D` (`spanStartK` plus the progress term): the two bounds added,
+
+    `|toRat time − (start + s·D + θ·D)| ≤ u·(|S| + |start|) + u·(5 + 3|s|)·D + 2⁻¹⁰⁷³`,    `S = toRat (span_start s)`. -/
+theorem tick_time_total_err_float (p : Params Float) (s : Int) (d : Float) (hs : s.natAbs < 2 ^ 53)
+    (hfin : (tickEvent p s d).time.isFinite = true) (hlenf : p.len.isFinite = true)
+    (hlen : Scalar.lt (0 : Float) p.len = true) (hd0 : Scalar.le (0 : Float) d = true)
+    (hdl : Scalar.le d p.len = true) (hdur : Scalar.le (0 : Float) p.spanDuration = true) :
+    |toRat (tickEvent p s d).time -
+        (toRat p.startTime + (s : ℚ) * toRat p.spanDuration +
+          (if isReversed s then 1 - toRat d / toRat p.len else toRat d / toRat p.len) * toRat p.spanDuration)| ≤
+      u₅₃ * (|toRat (spanStart p s)| + |toRat p.startTime|) +
+        u₅₃ * (5 + 3 * |(s : ℚ)|) * toRat p.spanDuration + (2 : ℚ) ^ (-1073 : Int) := by
+  have h1 := tick_time_err_float p s d hfin hlenf hlen hd0 hdl hdur
+  have fS : (spanStart p s).isFinite = true := by
+    rw [tickEvent_time] at hfin; exact (finite_of_add_finite _ _ hfin).1
+  have h2 := span_start_err_float p s hs fS
+  have fD : p.spanDuration.isFinite = true := by
+    unfold spanStart at fS
+    exact (finite_of_mul_finite _ _ (finite_of_add_finite _ _ fS).2).2
+  have hD := toRat_nonneg _ hdur fD
+  rw [abs_mul, abs_of_nonneg hD] at h2
+  have e73 : (2 : ℚ) ^ (-1073 : Int) = (2 : ℚ) ^ (-1074 : Int) + (2 : ℚ) ^ (-1074 : Int) := by
+    rw [show (-1073 : Int) = -1074 + 1 by norm_num, zpow_add₀ (two_ne_zero), zpow_one]; ring
+  rw [e73]
+  generalize (if isReversed s then 1 - toRat d / toRat p.len else toRat d / toRat p.len) = θ at *
+  have tri := abs_add_le (toRat (tickEvent p s d).time - (toRat (spanStart p s) + θ * toRat p.spanDuration))
+    (toRat (spanStart p s) - (toRat p.startTime + (s : ℚ) * toRat p.spanDuration))
+  have e : toRat (tickEvent p s d).time -
+      (toRat p.startTime + (s : ℚ) * toRat p.spanDuration + θ * toRat p.spanDuration) =
+      (toRat (tickEvent p s d).time - (toRat (spanStart p s) + θ * toRat p.spanDuration)) +
+      (toRat (spanStart p s) - (toRat p.startTime + (s : ℚ) * toRat p.spanDuration)) := by ring
+  rw [e]
+  refine le_trans tri ?_
+  have : u₅₃ * (|toRat (spanStart p s)| + |toRat p.startTime|) + u₅₃ * (5 + 3 * |(s : ℚ)|) * toRat p.spanDuration +
+      ((2 : ℚ) ^ (-1074 : Int) + (2 : ℚ) ^ (-1074 : Int)) =
+      (u₅₃ * |toRat (spanStart p s)| + 5 * u₅₃ * toRat p.spanDuration + (2 : ℚ) ^ (-1074 : Int)) +
+      (u₅₃ * |toRat p.startTime| + 3 * u₅₃ * (|(s : ℚ)| * toRat p.spanDuration) + (2 : ℚ) ^ (-1074 : Int)) := by ring
+  rw [this]
+  exact add_le_add h1 h2
+
 /-! ## non-vacuity: the third tick of `exG` (kernel-evaluated) -/
 
 section Examples
@@ -344,6 +455,21 @@ example : (exGds[2] / exG.len).isFinite = true ∧
   rw [toRat_of_unpack unpack_third_tick, toRat_of_unpack hl]
   refine le_trans (zpow_le_zpow_right₀ (by norm_num) (by norm_num) : (2 : ℚ) ^ (-1022 : Int) ≤ (2 : ℚ) ^ (-10 : Int)) ?_
   norm_num [sgnQ]
+
+/-- `tick_time_total_err_float` on the same tick (span 0 of `exG`; `|0| < 2⁵³`): an instance. -/
+example :
+    |toRat (tickEvent exG 0 (Float.ofBits 0x3FD3333333333334)).time -
+        (toRat exG.startTime + ((0 : Int) : ℚ) * toRat exG.spanDuration +
+          (toRat (Float.ofBits 0x3FD3333333333334) / toRat exG.len) * toRat exG.spanDuration)| ≤
+      u₅₃ * (|toRat (spanStart exG 0)| + |toRat exG.startTime|) +
+        u₅₃ * (5 + 3 * |((0 : Int) : ℚ)|) * toRat exG.spanDuration + (2 : ℚ) ^ (-1073 : Int) := by
+  obtain ⟨h1, h2, h3, h4, h5, h6, _⟩ := exG_third_tick_hyps
+  have := tick_time_total_err_float exG 0 _ (by decide) h1 h2 h3 h4 h5 h6
+  simpa [isReversed] using this
+
+/-- `f64::from` on a negative span index, exactly. -/
+example : toRat (Float.ofInt (-7)) = -7 := by
+  have := toRat_ofInt (-7) (by decide); simpa using this
 
 end Examples
 
